@@ -342,6 +342,73 @@ def t17_sort(run, fx):
         run.ok(rule, "the sort of each run is unconditional")
 
 
+# Canonical_Combining_Class values in use (UnicodeData.txt; the variants of ModifiedCombiningClass plus the three classes it removes)
+CCC_IN_USE = [0, 1, 6, 7, 8, 9] + list(range(10, 37)) + [84, 91, 103, 107, 118, 122, 129, 130, 132, 202, 214, 216, 218, 220, 222, 224, 226, 228,
+                                                        230, 232, 233, 234, 240]
+# Hebrew points and accents in the order of the SBL Hebrew user manual (the same permutation as HarfBuzz's modified classes): ccc 10..26
+HEBREW_SBL = [22, 15, 16, 17, 23, 18, 19, 20, 21, 14, 24, 12, 25, 13, 10, 11, 26]
+
+
+def t17_mcc(run, fx):
+    rule = "T17-MCC"
+    run.rule(rule, "the modified combining class table (read from the evaluated constant): every canonical combining class in use maps to itself, "
+                   "except the documented changes - the Hebrew classes 10..26 follow the SBL Hebrew manual order (22 15 16 17 23 18 19 20 21 14 24 "
+                   "12 25 13 10 11 26), Telugu 84 -> 4, 91 -> 5, Thai 103 -> 3. Entries of classes no character has are not constrained")
+    c = fx.const("unicode::mcc::MODIFIED_COMBINING_CLASS")
+    if c is None or not c.get("bytes") or not c.get("array_len"):
+        return run.anchor_missing(rule, "evaluated bytes of unicode::mcc::MODIFIED_COMBINING_CLASS")
+    raw = bytes.fromhex(c["bytes"])
+    size = (c.get("elem_layout") or {}).get("size") or 1
+    n = c["array_len"]
+    if size != 1 or n != 256 or len(raw) < 256:
+        return run.anchor_missing(rule, "256 one-byte entries in MODIFIED_COMBINING_CLASS (found %d entries of %d bytes)" % (n, size))
+    want = {v: v for v in CCC_IN_USE}
+    want.update({84: 4, 91: 5, 103: 3})
+    for i, v in enumerate(HEBREW_SBL):
+        want[10 + i] = v
+    bad = [(k, raw[k], w) for k, w in sorted(want.items()) if raw[k] != w]
+    if bad:
+        for k, got, w in bad[:6]:
+            run.fail(rule, "mcc:%d" % k, "MODIFIED_COMBINING_CLASS[%d] is %d, the documented modified class is %d: marks of class %d sort in another place than "
+                     "documented" % (k, got, w, k), "%s:%s" % (c.get("file"), c.get("line")))
+    else:
+        run.ok(rule, "%d classes in use map as documented" % len(want))
+
+
+# opentype-shaping-thai-lao: the above-base marks a NIKHAHIT/NIGGAHITA that comes from SARA AM is moved in front of
+THAI_LAO_ABOVE = {0x0E31} | set(range(0x0E34, 0x0E38)) | set(range(0x0E47, 0x0E4F)) | {0x0EB1} | set(range(0x0EB4, 0x0EB8)) | {0x0EBB} | set(range(0x0EC8, 0x0ECE))
+AM_SPLIT = {0x0E33: (0x0E4D, 0x0E32), 0x0EB3: (0x0ECD, 0x0EB2)}
+
+
+def t17_thai(run, fx):
+    import tableread
+    rule = "T17-THAI"
+    run.rule(rule, "scripts::thai_lao::is_abovebase_mark is true exactly for the above-base vowels, tone marks and signs of Thai (U+0E31, U+0E34..0E37, "
+                   "U+0E47..0E4E) and Lao (U+0EB1, U+0EB4..0EB7, U+0EBB, U+0EC8..0ECD): these are the marks the nikhahit split off SARA AM is rotated in "
+                   "front of (evaluated over U+0D00..U+0FFF and around every constant of the function)")
+    b = fx.body("scripts::thai_lao::is_abovebase_mark")
+    if b is None:
+        return run.anchor_missing(rule, "scripts::thai_lao::is_abovebase_mark")
+    try:
+        f, bps = tableread.scalar_fn(b)
+        pts = set(range(0x0D00, 0x1000)) | set(THAI_LAO_ABOVE) | {0, 0x7F, 0x80, 0xFF, 0x10FFFF}
+        for v in list(bps):
+            if isinstance(v, int):
+                pts |= {v - 1, v, v + 1}
+        bad = []
+        for v in sorted(x for x in pts if 0 <= x <= 0x10FFFF and not (0xD800 <= x <= 0xDFFF)):
+            r = f(v)
+            got = bool(r[1]) if r[0] == "some" else False
+            if got != (v in THAI_LAO_ABOVE):
+                bad.append("U+%04X -> %s" % (v, got))
+    except tableread.TableShape as e:
+        return run.fail(rule, "thai:shape", "is_abovebase_mark is not a decision over its argument that can be evaluated: %s" % e, "%s:%s" % (b.file, b.line))
+    if bad:
+        run.fail(rule, "thai:" + ",".join(bad)[:80], "is_abovebase_mark differs from the Thai/Lao above-base mark set: %s" % bad[:8], "%s:%s" % (b.file, b.line))
+    else:
+        run.ok(rule, "%d above-base marks, %d points evaluated" % (len(THAI_LAO_ABOVE), len(pts)))
+
+
 def check(run, fx, tier, floors=True):
     if floors or fx.body("scripts::arabic::is_modifier_combining_mark") is not None:
         t17_mcm(run, fx)
@@ -353,6 +420,10 @@ def check(run, fx, tier, floors=True):
         t17_fast(run, fx)
     if floors or fx.body("unicode::mcc::sort_by_modified_combining_class") is not None:
         t17_sort(run, fx)
+    if floors or fx.const("unicode::mcc::MODIFIED_COMBINING_CLASS") is not None:
+        t17_mcc(run, fx)
+    if floors or fx.body("scripts::thai_lao::is_abovebase_mark") is not None:
+        t17_thai(run, fx)
     r = t17_disp(run, fx)
     rule = "T17-EFF"
     run.rule(rule, "every use of the character buffer's mutable capability reachable from preprocess_text is a stable permutation primitive or a "
